@@ -15,8 +15,13 @@
         SHORTF  = 32  doubles are formatted like floats (%.9g, with SIMPLE %.7g)
         NICE    = 3   PRETTY | SIMPLE
         COMPACT = 4 , EXACT = 16 : declared in Json::Mode without documentation; the encoder does not look at them.
-                      The specification leaves their layout open (Ser ignores them, the enumerating module marks such
-                      cases lay = FALSE: only the language / round-trip clauses are demanded of them).
+                      Ser ignores them.
+
+   STATUS OF THE LAYOUT.  Ser transcribes the *present* encoder byte for byte; what C05 and the documentation demand of a
+   real text is less: it must be in the dialect's language with value Lossy(tree) (JsonLaw / XdlLaw evaluated on the real
+   text), its number tokens must obey the digits law of the mode, and the documented promises of the flags must hold
+   (ModePromises below).  The checks therefore treat a real text that differs from Ser as a *deviation* (counted in the
+   evidence, judged by those laws on the real text: Trace_XdlWriterDev / Trace_JsonTextEnc), never as a violation by itself.
 
    Layout rules of PRETTY mode (transcribed from XdlEncoder::_encode), level = number of enclosing multi-line containers:
      * an object always takes one line per member:  '{' NL(level+1) member ... NL(level) '}' ; the empty object is '{' NL(level) '}'
@@ -197,6 +202,36 @@ MatchFrom(tx, i, pat, j) ==
                           e == IF e0 = 0 THEN Len(tx) + 1 ELSE e0
                       IN e > i2 /\ MatchFrom(tx, e, pat, q + 1)
 MatchLayout(tx, pat) == MatchFrom(tx, 1, pat, 1)
+
+-------------------------------------------------------------------------------
+(* What the documentation promises about the *layout* (include/asl/JSON.h, enum Json::Mode and the text above it) - and
+   nothing more is demanded of a real text that differs from Ser (rows of 16 items, the TAB, ", " and ": ", the final newline,
+   when an array goes multi-line ... are the present implementation, not the contract):
+     NONE    "Compact format in a single line" / "a compact format (no newlines or whitespace)":
+             without PRETTY there is no line break outside strings, and in the JSON dialect no blank or TAB either
+     PRETTY  "Format with newlines and indentations": a value that contains a non-empty object is spread over indented lines
+             (some line break is followed by a blank or TAB)
+     SIMPLE  "Format real numbers with reduced precision", SHORTF "Format doubles as short as floats", default "numbers are
+             written so that they are recovered exactly when parsing": these are the digits laws of WDenotes (PrecD / PrecF)
+     JSON    (set by Json::encode / Json::write) the text is JSON: JsonLaw on the real text                              *)
+RECURSIVE Unquoted(_, _, _)
+\* the text with every string literal replaced by one '"'
+Unquoted(t, i, instr) ==
+    IF i > Len(t) THEN <<>>
+    ELSE IF instr THEN (IF t[i] = 92 THEN Unquoted(t, i + 2, TRUE) ELSE IF t[i] = 34 THEN Unquoted(t, i + 1, FALSE) ELSE Unquoted(t, i + 1, TRUE))
+    ELSE IF t[i] = 34 THEN <<34>> \o Unquoted(t, i + 1, TRUE)
+    ELSE <<t[i]>> \o Unquoted(t, i + 1, FALSE)
+RECURSIVE HasMembers(_)
+HasMembers(t) == IF WKind(t) = "a" THEN \E j \in 1..Len(t.a) : HasMembers(t.a[j])
+                 ELSE IF WKind(t) = "o" THEN \E j \in 1..Len(t.o) : WKind(t.o[j][2]) # "none" /\ t.o[j][1] # WTypeKey
+                 ELSE FALSE
+ModePromises(tx, m, t) ==
+    LET u == Unquoted(tx, 1, FALSE)
+        L == Len(u)
+    IN IF Pretty(m)
+       THEN HasMembers(t) => \E i \in 1..(L - 1) : u[i] = 10 /\ u[i + 1] \in {9, 32}
+       ELSE /\ \A i \in 1..L : u[i] \notin {10, 13}
+            /\ IsJson(m) => \A i \in 1..L : u[i] \notin {9, 32}
 
 RECURSIVE AsciiKeys(_)
 AsciiKeys(t) == IF WKind(t) = "a" THEN \A j \in 1..Len(t.a) : AsciiKeys(t.a[j])
